@@ -25,6 +25,25 @@ func (e *Engine) lookupExternal(fn *ssa.Function) externalFn {
 	if fn.Pkg != nil && fn.Pkg.Pkg.Path() == "math" && fn.Blocks == nil {
 		return mathNative(fn.Name())
 	}
+	if name == "os.ReadFile" {
+		// files registered with verifrt.TempDirWithFiles are served from memory
+		return func(m *Machine, fr *frame, args []value) value {
+			if m.path != nil {
+				if p, ok := args[0].(string); ok {
+					if content, found := m.path.vfiles[p]; found {
+						return tuple{append([]value{}, strBytes(content)...), iface{}}
+					}
+					for dir := range m.path.vdirs {
+						if strings.HasPrefix(p, dir+"/") {
+							// inside a registered directory: the file does not exist
+							return tuple{[]value(nil), m.mkError("open " + p + ": no such file or directory")}
+						}
+					}
+				}
+			}
+			return m.trap(name, fn, args)
+		}
+	}
 	if fn.Pkg != nil {
 		p := fn.Pkg.Pkg.Path()
 		if trapPkgs[p] && fn.Parent() == nil {
@@ -252,6 +271,24 @@ func init() {
 			m.raceActive = true
 			return nil
 		},
+		verifrtPath + ".TempDirWithFiles": func(m *Machine, fr *frame, a []value) value {
+			mp, _ := a[0].(*Map)
+			p := m.path
+			if p.vfiles == nil {
+				p.vfiles, p.vdirs = map[string]string{}, map[string]bool{}
+			}
+			dir := fmt.Sprintf("/verifvfs-%d", len(p.vdirs))
+			p.vdirs[dir] = true
+			if mp != nil {
+				for _, e := range mp.entries {
+					if !e.deleted {
+						p.vfiles[dir+"/"+concStr(e.k)] = concStr(e.v)
+					}
+				}
+			}
+			return dir
+		},
+		verifrtPath + ".RemoveTempDir": func(m *Machine, fr *frame, a []value) value { return nil },
 		verifrtPath + ".Yields": func(m *Machine, fr *frame, a []value) value { return int64(m.sch().yields) },
 		verifrtPath + ".MustTerminate": func(m *Machine, fr *frame, a []value) value {
 			m.path.mustTerminate = concStr(a[0])
@@ -771,8 +808,13 @@ func mutexLock(m *Machine, fr *frame, a []value) value {
 	}
 	s.mutexHeld[p] = s.cur
 	m.raceSync(p, true, false)
+	m.raceSync(rwReaderKey{p}, true, false) // a writer also waits for the readers
 	return nil
 }
+
+// rwReaderKey: the clock into which the readers of an RWMutex release. Only
+// writers acquire it: two read-locked sections are not ordered with each other.
+type rwReaderKey struct{ p *value }
 
 func mutexTryLock(m *Machine, fr *frame, a []value) value {
 	if m.path == nil || m.path.sched == nil {
@@ -817,7 +859,7 @@ func rwRLock(m *Machine, fr *frame, a []value) value {
 		s.rwReaders = map[*value]int{}
 	}
 	s.rwReaders[p]++
-	m.raceSync(p, true, false)
+	m.raceSync(p, true, false) // acquire from the writers only
 	return nil
 }
 
@@ -830,8 +872,8 @@ func rwRUnlock(m *Machine, fr *frame, a []value) value {
 	if s.rwReaders[p] > 0 {
 		s.rwReaders[p]--
 	}
-	// readers release too (over-approximation: orders readers among themselves)
-	m.raceSync(p, false, true)
+	// readers release into their own clock, which only writers acquire
+	m.raceSync(rwReaderKey{p}, false, true)
 	return nil
 }
 
